@@ -122,8 +122,10 @@ def exact(rep):
     pm = parent_map(an.node)
     ndefs = local_defs(an.node)
     comps = [nm_ for nm_, ds in ndefs.items() for d_ in ds if d_.kind == "assign" and norm(d_.value) == "self.components"]
-    rep.need("SHAPE", len(comps), 1, "comps = self.components in _analyze")
-    cv = comps[0]
+    # normal form N24 reads a local that merely names `self.components` as the attribute itself
+    direct = [n_ for n_ in walk_local(an.node) if isinstance(n_, ast.Attribute) and norm(n_) == "self.components"]
+    rep.need("SHAPE", len(comps) + (1 if direct else 0), 1, "self.components in _analyze")
+    cv = comps[0] if comps else "self.components"
     lp = [l for l in walk_local(an.node) if isinstance(l, ast.For) and norm(l.iter) == cv]
     if not lp:
         # comprehension form: per = [self._analyze_component(self._graph.subgraph(c).copy()) for c in comps]; orbits chained, counts multiplied
@@ -233,6 +235,12 @@ def estimate(rep):
         rr = returns_of(ro.node)
         ok = b is not None and bool(rr) and isinstance(rr[-1].value, ast.Tuple) and (b["new"] == norm(rr[-1].value.elts[0]) or any(d_.kind == "assign" and d_.value is not None and norm(d_.value) == b["new"]
                                                                           for d_ in local_defs(ro.node).get(norm(rr[-1].value.elts[0]), [])))
+        if b is None:
+            # not one of the palette idioms: wrong only on positive evidence - a colour store that does not go through a palette keyed by the label
+            stores_ = [n_ for n_ in walk_local(lp[0]) if isinstance(n_, ast.Assign) and isinstance(n_.targets[0], ast.Subscript) and norm(n_.targets[0].slice) == nd]
+            pal_ok = [n_ for n_ in stores_ if any(isinstance(x, ast.Subscript) and isinstance(x.ctx, ast.Load) for x in ast.walk(n_.value))
+                      or any(isinstance(x, ast.Call) and call_name(x) in ("setdefault", "get") for x in ast.walk(n_.value)) or isinstance(n_.value, ast.Name)]
+            ok = None if (stores_ and len(pal_ok) == len(stores_)) else False
     rep.ob("O11.2", "R12", ro, ok, lp[0].iter if lp else "for", "colours are assigned per distinct label: equal labels get equal colours in one sweep")
     bo = rep.f(AE, "AutoEst._build_orbits")
     b = pall(["for $n, $c in self._colors.items():\n    $m.setdefault($c, []).append($n)", "$orbs = [frozenset($v) for $v in $m.values()]"], bo.node)
@@ -294,8 +302,18 @@ def dedup(rep):
             if mm:
                 seen, sig = mm["seen"], mm["sig"]
                 ok = True
+            else:
+                # dictionary form: first = seen.get(sig) ; if first is not None: continue   (the stored values are positions, never None)
+                mg = pmatch("$f is not None", gs[0][0])
+                fsrc = origin(local_defs(lp), ast.Name(id=mg["f"], ctx=ast.Load())) if mg else None
+                mm2 = pmatch("$seen.get($sig)", fsrc) if fsrc is not None else None
+                if mm2:
+                    seen, sig = mm2["seen"], mm2["sig"]
+                    ok = True
     rep.ob("O11.3", "R7", fi, ok, [type(c).__name__ for c in conts], "a match is dropped only if an earlier match had the same signature (first occurrence kept)")
     adds = [c for c in walk_local(lp) if seen and isinstance(c, ast.Call) and pmatch(f"{seen}.add({sig})", c) is not None]
+    adds += [st_ for st_ in walk_local(lp) if seen and isinstance(st_, ast.Assign) and pmatch(f"{seen}[{sig}] = $$v", st_) is not None
+             and not is_const(st_.value, None)]
     rep.ob("O11.3", "R7", fi, len(adds) == 1, adds[0] if adds else "seen.add(sig)", "each kept signature is remembered")
     ok = bool(rets) and isinstance(rets[-1].value, ast.Name) and any(norm(r.value) == f"list({fi.params[0]})" for r in rets[:-1])
     rep.ob("O11.3", "R7", fi, ok, [norm(r.value) for r in rets], "without orbit information the input is returned unchanged; otherwise the filtered list")
@@ -531,7 +549,7 @@ def dedup_key(rep):
     loops = [l for l in walk_local(fi.node) if isinstance(l, ast.For) and norm(l.iter) == fi.params[0]]
     if loops:
         mv = norm(loops[0].target)
-        b = pall(["$sig = ($$free, $$anc)", "$seen.add($sig)"], loops[0])
+        b = pall(["$sig = ($$free, $$anc)", "$seen.add($sig)"], loops[0]) or pall(["$sig = ($$free, $$anc)", "$seen[$sig] = $$pos"], loops[0])
         okk = False
         if b is not None:
             ld_ = local_defs(loops[0])
